@@ -272,21 +272,20 @@ Proof. exact cone_factory_coverage_repaired_l. Qed.
 Print Assumptions cone_factory_coverage_repaired.
 
 (* ===================== 6. slicing by angle index (__getitem__) ===================== *)
-(* Full statement "geom[i:j] has the same det_pos_init / translation / detector as geom" is FALSE for
-   the current Parallel2dGeometry.__getitem__ whenever the translation is nonzero (it passes the
-   already translated det_pos_init together with the translation).  Recorded finding
-   C19/parallel2d-getitem-translation-twice.  [par2d_getitem false] is the current code,
-   [par2d_getitem true] the repaired one (the harness measures which one /repo shows). *)
-Theorem parallel2d_slice_refuted : forall (pos : R * R) (ax : option (R * R)) (tr : R * R) (g g' : par2d),
-  mk_par2d sqrt pos ax tr = Some g -> par2d_getitem sqrt false g ax = Some g' ->
-  p2_pos g' = add2 (p2_pos g) tr /\ (tr <> (0, 0) -> p2_pos g' <> p2_pos g).
-Proof. exact par2d_getitem_current_l. Qed.
-Print Assumptions parallel2d_slice_refuted.
+(* Parallel2dGeometry: geom[i:j] is rebuilt from the un-translated det_pos_init, the detector axis argument and the
+   translation, and IS the same geometry (same det_pos_init, translation, detector) -- all arguments *)
+Theorem parallel2d_slice : forall (pos : R * R) (ax : option (R * R)) (tr : R * R) (g : par2d),
+  mk_par2d sqrt pos ax tr = Some g -> par2d_getitem sqrt g ax = Some g.
+Proof. exact par2d_getitem_same_l. Qed.
+Print Assumptions parallel2d_slice.
 
-Theorem parallel2d_slice_repaired : forall (pos : R * R) (ax : option (R * R)) (tr : R * R) (g : par2d),
-  mk_par2d sqrt pos ax tr = Some g -> par2d_getitem sqrt true g ax = Some g.
-Proof. exact par2d_getitem_fixed_l. Qed.
-Print Assumptions parallel2d_slice_repaired.
+(* the defect repaired by fix 388a3ff (finding C19/parallel2d-getitem-translation-twice), kept as a statement about the
+   explicit old call: rebuilding from the TRANSLATED position plus the translation moves det_pos_init *)
+Theorem parallel2d_slice_old_call_refuted : forall (pos : R * R) (ax : option (R * R)) (tr : R * R) (g g' : par2d),
+  mk_par2d sqrt pos ax tr = Some g -> mk_par2d sqrt (p2_pos g) ax (p2_tr g) = Some g' ->
+  p2_pos g' = add2 (p2_pos g) tr /\ (tr <> (0, 0) -> p2_pos g' <> p2_pos g).
+Proof. exact par2d_getitem_old_l. Qed.
+Print Assumptions parallel2d_slice_old_call_refuted.
 
 (* ============ 7. detector surface parametrisations and their derivatives ============ *)
 (* CircularDetector: surface(0) = 0; the surface is the circle of radius r about [circ_transl];
@@ -363,8 +362,8 @@ Theorem constructed_geometries_wellformed :
   (forall rs rd curv s2d axis tr g, mk_fan sqrt rs rd curv s2d axis tr = Some g ->
      dot2 (f_s2d g) (f_s2d g) = 1 /\ wf_det2 (f_det g) /\ 0 <= f_rs g /\ 0 <= f_rd g /\
      ~ (f_rs g = 0 /\ f_rd g = 0) /\ f_tr g = tr) /\
-  (forall fixed rs rd curv pitch off axis s2d axes tr g,
-     mk_cone sqrt fixed rs rd curv pitch off axis s2d axes tr = Some g ->
+  (forall rs rd curv pitch off axis s2d axes tr g,
+     mk_cone sqrt false rs rd curv pitch off axis s2d axes tr = Some g ->
      dot3 (c_axis g) (c_axis g) = 1 /\ dot3 (c_s2d g) (c_s2d g) = 1 /\ wf_det3' (c_det g) /\
      0 <= c_rs g /\ 0 <= c_rd g /\ ~ (c_rs g = 0 /\ c_rd g = 0) /\
      c_tr g = tr /\ c_pitch g = pitch /\ c_off g = off).
@@ -424,7 +423,7 @@ Print Assumptions conebeam_frommatrix.
    [mk_curved false] is the code as it is, [mk_curved true] the repaired alignment (matrix with columns
    -(a0 x a1), -a0, a1); the harness measures which one /repo shows.  For the repaired alignment: *)
 Theorem curved_detector_deriv_at_zero_repaired : forall (sph : bool) (a0 a1 : R * R * R) (r u v : R) (d : det3d),
-  mk_curved sqrt true sph a0 a1 r = Some d ->
+  dot3 a0 a1 = 0 -> mk_curved sqrt true sph a0 a1 r = Some d ->
   deriv3 d (u, v, (1, 0), (1, 0)) =
   (scal3 r (fst (det3_axes d)), if sph then scal3 r (snd (det3_axes d)) else snd (det3_axes d)).
 Proof. exact mk_curved_fixed_deriv. Qed.
@@ -453,11 +452,11 @@ Example default_geometries_are_constructed :
                match f_det g with Flat1 (a0, a1) => Qeq_bool a0 1 && Qeq_bool a1 0 | _ => false end
    | None => false end) = true.
 Proof. split; vm_compute; reflexivity. Qed.
-(* slicing a translated Parallel2dGeometry succeeds and (current code) moves det_pos_init *)
+(* slicing a translated Parallel2dGeometry succeeds and keeps det_pos_init; the old call moved it *)
 Example slice_instance :
   (match mk_par2d Qsqrt (3, 4)%Q None (1, 2)%Q with
-   | Some g => match par2d_getitem Qsqrt false g None, par2d_getitem Qsqrt true g None with
-               | Some g1, Some g2 => Qeq_bool (fst (p2_pos g1)) 5 && Qeq_bool (snd (p2_pos g1)) 8 &&
+   | Some g => match par2d_getitem Qsqrt g None, mk_par2d Qsqrt (p2_pos g) None (p2_tr g) with
+               | Some g2, Some g1 => Qeq_bool (fst (p2_pos g1)) 5 && Qeq_bool (snd (p2_pos g1)) 8 &&
                                      Qeq_bool (fst (p2_pos g2)) 4 && Qeq_bool (snd (p2_pos g2)) 6
                | _, _ => false end
    | None => false end) = true.
